@@ -535,3 +535,52 @@ func (ck *Check) checkC07immutOnly() {
 	}
 	ck.flowObl = append(saved, keep...)
 }
+
+func init() {
+	extraChecks["C01"] = func(ck *Check) { ck.runTreeStandIn("C01") }
+	extraChecks["C06"] = func(ck *Check) { ck.runTreeStandIn("C06") }
+	extraChecks["C15"] = func(ck *Check) { ck.runTreeStandIn("C15") }
+}
+
+// runTreeStandIn: bounded stand-in for Tree.Insert's functional postcondition
+// (labelled bounded, never counted among the discharged obligations).
+func (ck *Check) runTreeStandIn(prop string) {
+	src, err := os.ReadFile(filepath.Join(ck.Verif, "harness", "c01_tree_test.go"))
+	if err != nil {
+		ck.engineErr = append(ck.engineErr, err.Error())
+		return
+	}
+	os.Setenv("GOVC_TIER", ck.Tier)
+	out, _ := ck.runOverlayTest("internal/origins", "zz_govc_c01_test.go", string(src), "^TestGovcC01$", 20*time.Minute)
+	var maxList, universe, probes, lists, evals, nontrivial, fails int
+	sample := ""
+	found := false
+	var failLines []string
+	for _, ln := range strings.Split(out, "\n") {
+		if strings.HasPrefix(ln, "GOVC-C01-FAIL") && len(failLines) < 20 {
+			failLines = append(failLines, ln)
+		}
+		if strings.HasPrefix(ln, "GOVC-C01 ") {
+			fmt.Sscanf(ln, "GOVC-C01 maxlist=%d universe=%d probes=%d lists=%d evals=%d nontrivial=%d fails=%d sample=%s", &maxList, &universe, &probes, &lists, &evals, &nontrivial, &fails, &sample)
+			found = true
+		}
+	}
+	d := map[string]any{
+		"name":     "bounded/origins.Tree.Insert",
+		"kind":     "BOUNDED stand-in on the real code (not a proof): every ordered list of patterns up to the bound x every probe origin, Contains vs. the denotation from the property statement; node invariant on all reachable nodes; Elems()/ParsePattern round trip",
+		"function": "origins.Tree.Insert (+ Elems)",
+		"bound":    map[string]any{"max_list_length": maxList, "pattern_universe": universe, "probe_origins": probes},
+		"cases":    lists, "evaluations": evals, "nontrivial_lists": nontrivial,
+		"sample": sample,
+		"ok":     found && fails == 0,
+	}
+	if !found {
+		d["output"] = firstLines(out, 30)
+	}
+	if fails > 0 {
+		d["failing_cases"] = failLines
+		d["how_to_replay"] = "copy /verif/harness/c01_tree_test.go into /repo/internal/origins and run go test -run TestGovcC01 -v"
+	}
+	ck.bounded = append(ck.bounded, d)
+	ck.assume["Tree.Insert: functional postcondition (denotation union, NodeOK) is NOT proved; bounded stand-in only (see coverage.bounded)"] = true
+}
